@@ -372,6 +372,14 @@ func (g *gen) setup() {
 			}
 		}
 	}
+	// snapshot / replica profiles: one column of every kind that has its own Snapshot code
+	if g.p.name == "C07" || g.p.name == "C06" {
+		g.addCol(genCol{"ke", "enum", ""})
+		g.addCol(genCol{"kb", "bool", ""})
+		g.addCol(genCol{"kr", "record", ""})
+		g.addCol(genCol{"ks", "string", ""})
+		g.addCol(genCol{"kn", "int32", ""})
+	}
 	// merge-heavy profile: one column per merge family whose result aliases / resizes / folds
 	if g.p.name == "C09" {
 		g.addCol(genCol{"st", "string", "tail"})
@@ -389,7 +397,8 @@ func (g *gen) setup() {
 		g.feat("deadline-column")
 	}
 	// cheap multi-chunk population: rows around the 16K-chunk edges, inserted through Replay
-	if r.Intn(3) == 0 || (g.p.name == "C17" && r.Intn(3) > 0) || (g.p.wKey >= 100 && r.Intn(4) > 0) {
+	allKinds := g.p.name == "C07" || g.p.name == "C06"
+	if r.Intn(3) == 0 || (g.p.name == "C17" && r.Intn(3) > 0) || (g.p.wKey >= 100 && r.Intn(4) > 0) || (allKinds && r.Intn(4) > 0) {
 		pool := []uint32{5, 63, 64, 16383, 16384, 16385, 16390, 20000, 32767, 32768, 32769, 40000}
 		var offs []string
 		for _, o := range pool {
@@ -417,6 +426,17 @@ func (g *gen) setup() {
 				}
 				g.emit("p commit " + tid)
 				g.feat("keyed-far-rows")
+			}
+			// every kind holds values beyond the first chunk
+			if allKinds {
+				g.nTxn++
+				tid := fmt.Sprintf("v%d", g.nTxn)
+				g.emit("p begin " + tid)
+				for i, o := range offs {
+					g.emit(fmt.Sprintf("p %s at %s set:ke:%s bool:kb:%d set:kr:%s set:ks:%s set:kn:%08x", tid, o, g.enumValue(), i%2, g.recValue(), g.strValue(false), uint32(i+1)))
+				}
+				g.emit("p commit " + tid)
+				g.feat("all-kinds-far-rows")
 			}
 		}
 	}
